@@ -465,7 +465,8 @@ func h265RtCase(c *Case, addDONL, skip bool, mtu int, frames [][]h265Framed) {
 	}
 	all := make([]h265Out, 0, len(frames))
 	for _, f := range frames {
-		buf := h265FrameBytes(f)
+		// the frame is handed over exactly sized or as a window of a larger array (payWindow)
+		_, buf := payWindow(h265FrameBytes(f), mtu)
 		var r h265Out
 		r.panicked = try(func() { r.out = p.Payload(uint16(mtu), buf) })
 		// the sender appends its trailer (auth tag, padding) to every payload in place
